@@ -4,6 +4,11 @@ Spec: specs/Pipe/Pipe.tla (design, checked exhaustively by TLC for small constan
 specs/Pipe/TracePipe.tla (trace validation).  Binding (harness/drivers/c15):
   * replay: sequential-start schedules of the model (edges of the state graph of MCPipe with the
     SeqOnly constraint) are executed on a real pipe, one goroutine per call, parked-goroutine detection;
+  * the combined operations (SetDeadline = read half ; write half in ONE call, Close = CloseRead ; CloseWrite) have
+    replay graphs of their own (COVER_ALL: setd_l/r, close2_l/r): every half-close state of both ends x SetDeadline(past/
+    future) x pending Write/Read x timer expiry, every edge replayed; a call the model returns with a timeout (or the
+    shutdown error) and the pipe leaves parked is a violation (pipe.deadline|halfclose/parked-call-not-unblocked); where
+    the pipe has no armed timer for a deadline the model has, the behaviour is re-executed in real time and judged there;
   * free-running randomised histories from 2..4 goroutines per end;
   * every recorded call/return history (from both) is judged by the driver's direct oracles and is
     validated by TLC against TracePipe.tla (the unlogged steps are inferred).
@@ -24,6 +29,7 @@ SDO = '{"SetD"}'          # the combined SetDeadline only (a code path of its ow
 WR = '{"Write","Read"}'
 CTL = '{"CloseRead","CloseWrite","Close","SetRD","SetWD","SetD"}'
 ALLK = '{"past","future","zero"}'
+PF = '{"past","future"}'
 
 
 def sset(xs):
@@ -49,14 +55,15 @@ DESIGN = {
         # a writer and a reader (two calls each) against deadline setters on both ends
         "deadline": mkconsts({"l1": (W, 2), "r1": (RO, 2), "l3": (SD, 1), "r3": (SD, 2)},
                              "{2}", "{1}", "{99}", 4),
-        # the combined operations in every half-close state: one Write or Read of end l against SetDeadline(past/future/
-        # zero) of that end, a CloseRead/CloseWrite/Close of the same end and one of the peer, every interleaving
-        "halfclose_deadline": mkconsts({"l1": (WR, 1), "l3": (CL, 1), "l4": (SDO, 1), "r3": (CL, 1)},
-                                       "{1}", "{1}", "{99}", 4),
+        # the combined operations in every half-close state: one Write or Read of end l against SetDeadline(past/future)
+        # of that end, a CloseRead/CloseWrite/Close of the same end and a CloseRead/CloseWrite of the peer, every
+        # interleaving (thorough: Write and Read, the peer's Close too)
+        "halfclose_deadline": mkconsts({"l1": (WR, 1), "l3": (CL, 1), "l4": (SDO, 1), "r3": ('{"CloseRead","CloseWrite"}', 1)},
+                                       "{1}", "{1}", "{99}", 4, DlKinds=PF),
     },
     "thorough": {
         "halfclose_deadline": mkconsts({"l1": (W, 1), "l2": (RO, 1), "l3": (CL, 1), "l4": (SDO, 1), "r3": (CL, 1)},
-                                       "{2}", "{1}", "{99}", 5),
+                                       "{2}", "{1}", "{99}", 5, DlKinds=PF),
         "close": mkconsts({"l1": (W, 1), "l2": (W, 1), "r1": (R, 1), "r2": (R, 1), "l3": (CL, 1), "r3": (CL, 1)},
                           "{0,2}", "{0,1,3}", "{1,99}", 4, DlKinds="{}"),
         "closeerr": mkconsts({"l1": (W, 1), "r1": (R, 2), "l3": (CL, 2), "r3": (CL, 2)},
@@ -67,6 +74,8 @@ DESIGN = {
                            "{2}", "{1,3}", "{99}", 4),
     },
 }
+
+DESIGN_SMALL = ("halfclose_deadline",)
 
 # ---- replay graphs (sequential-start schedules: the interleavings the driver can force) ----
 # mode "graph": the complete graph is dumped and every edge is covered; mode ("sim", n, depth): the edges of n
@@ -81,16 +90,29 @@ def halfclose_setd(e, peer_reader=False):
     roles = {e + "1": (W, 1), e + "2": (RO, 1), e + "3": (CL, 1), e + "4": (SDO, 1), o + "3": (CL, 1)}
     if peer_reader:
         roles[o + "1"] = (RO, 1)
-    return (mkconsts(roles, "{2}", "{1}", "{99}", 5, EMIT="ACTION_CONSTRAINT EmitSeq"), "graph")
+    # (a single SetDeadline(zero) on a fresh pipe changes nothing: past and future only)
+    return (mkconsts(roles, "{2}", "{1}", "{99}", 5, DlKinds=PF, EMIT="ACTION_CONSTRAINT EmitSeq"), "graph")
 
 
+def double_close(e):
+    """The other combined operation, Close (= CloseRead ; CloseWrite in one call), after a half-close of the SAME end
+    (two of CloseRead/CloseWrite/Close on e in every order), followed by a Write and a Read of e and a Read of the peer."""
+    o = "r" if e == "l" else "l"
+    roles = {e + "1": (W, 1), e + "2": (RO, 1), e + "3": (CL, 2), o + "2": (RO, 1)}
+    return (mkconsts(roles, "{2}", "{1}", "{99}", 4, DlKinds="{}", EMIT="ACTION_CONSTRAINT EmitSeq"), "graph")
+
+
+# of the on-path histories of the COVER_ALL graphs, one in EVERY_SAMPLE is also validated by TLC (all that drifted are)
+EVERY_SAMPLE = 8
 # graphs whose every edge has to be replayed (the run is broken otherwise)
-COVER_ALL = ("setd_l", "setd_r")
+COVER_ALL = ("setd_l", "setd_r", "close2_l", "close2_r")
 
 REPLAY = {
     "quick": {
         "setd_l": halfclose_setd("l"),
         "setd_r": halfclose_setd("r"),
+        "close2_l": double_close("l"),
+        "close2_r": double_close("r"),
         # two multi-chunk writers against one-byte readers and a closer: complete graph, every edge replayed
         "atomic": (mkconsts({"l1": (W, 1), "l2": (W, 1), "r1": (RO, 2), "r2": (R, 1), "l3": (CL, 1)},
                             "{2}", "{1}", "{1}", 5, DlKinds="{}", EMIT="ACTION_CONSTRAINT EmitSeq"), "graph"),
@@ -100,6 +122,8 @@ REPLAY = {
     "thorough": {
         "setd_l": halfclose_setd("l", True),
         "setd_r": halfclose_setd("r", True),
+        "close2_l": double_close("l"),
+        "close2_r": double_close("r"),
         "atomic": (mkconsts({"l1": (W, 1), "l2": (W, 1), "r1": (RO, 3), "r2": (R, 2), "l3": (CL, 1), "r3": (CL, 1)},
                             "{2,3}", "{1}", "{1}", 6, DlKinds="{}", EMIT="ACTION_CONSTRAINT EmitSeq"), "graph"),
         "mix": (mkconsts({"l1": (W, 2), "l2": (W, 1), "r1": (R, 2), "r2": (RO, 1), "l3": (CTL, 1), "r3": (CTL, 1)},
@@ -266,13 +290,15 @@ def run(tier, seed, replay):
     # (1) design, exhaustive -- runs in the background while the binding work proceeds
     def design(name):
         c = DESIGN[tier][name]
-        r = vlib.tlc(SPEC, "MCPipe", "MCPipe.cfg", c, workers=max(2, (maxw - 2) // len(DESIGN[tier])), timeout=12000 if big else 3600,
+        # the small configuration gets two workers, the others share the rest as before
+        nw = 2 if name in DESIGN_SMALL else max(2, (maxw - 2) // max(1, len([x for x in DESIGN[tier] if x not in DESIGN_SMALL])))
+        r = vlib.tlc(SPEC, "MCPipe", "MCPipe.cfg", c, workers=nw, timeout=12000 if big else 3600,
                      edges=False, heap="12g" if big else "6g")
         return name, r
 
     pool = ThreadPoolExecutor(max_workers=5)
     # C15_SKIP_DESIGN is for mutation experiments only (the design run does not depend on the code)
-    design_futs = [pool.submit(design, n) for n in DESIGN[tier] if not (os.environ.get("C15_AB") and n == "halfclose_deadline")] if not os.environ.get("C15_SKIP_DESIGN") else []
+    design_futs = [pool.submit(design, n) for n in DESIGN[tier]] if not os.environ.get("C15_SKIP_DESIGN") else []
 
     # (1b) thorough only: liveness under weak fairness of the internal steps (EventuallyReturns) on a small configuration
     def live():
@@ -285,14 +311,15 @@ def run(tier, seed, replay):
     def graph_of(name):
         c, mode = REPLAY[tier][name]
         if mode == "graph":
-            g = vlib.tlc(SPEC, "MCPipe", "MCPipe.cfg", c, workers=4, timeout=12000 if big else 3600, edges=True, heap="6g", edge_limit=3000000)
+            g = vlib.tlc(SPEC, "MCPipe", "MCPipe.cfg", c, workers=2 if name in COVER_ALL else 4, timeout=12000 if big else 3600, edges=True,
+                         heap="2g" if name in COVER_ALL else "6g", edge_limit=3000000)
         else:
             g = vlib.tlc(SPEC, "MCPipe", "MCPipe.cfg", c, workers=1, timeout=12000 if big else 3600, edges=True, heap="3g",
                          simulate="num=%d" % mode[1], depth=mode[2], seed=seed, edge_limit=1500000)
         return name, mode, g
 
-    gpool = ThreadPoolExecutor(max_workers=6)
-    graph_futs = [gpool.submit(graph_of, n) for n in REPLAY[tier] if not (os.environ.get("C15_AB") and n in COVER_ALL)]
+    gpool = ThreadPoolExecutor(max_workers=8)
+    graph_futs = [gpool.submit(graph_of, n) for n in REPLAY[tier]]
 
     traces = []
     # (3) free-running histories
@@ -319,6 +346,7 @@ def run(tier, seed, replay):
     v.coverage["race_probe_trials"] = nrace
 
     behs = []
+    behs_every = []      # behaviours of the COVER_ALL graphs
     v.coverage["replay_graphs"] = {}
     for f in graph_futs:
         name, mode, g = f.result()
@@ -331,24 +359,39 @@ def run(tier, seed, replay):
                                   max_paths=20000 if every else ((6000 if mode == "graph" else 2500) if big else 300), prefer=calls)
         if every and left:
             raise vlib.Broken("replay graph %s: %d edges are not covered by the replayed paths" % (name, left))
-        walks = graph.random_walks((100 if every else 400) if big else (20 if every else 60), mode[2] if mode != "graph" else 60, seed=seed)
-        behs += [graph.behaviour(p) for p in paths + walks]
+        walks = [] if every else graph.random_walks(400 if big else 60, mode[2] if mode != "graph" else 60, seed=seed)
+        if every:
+            behs_every += [graph.behaviour(p) for p in paths]
+        else:
+            behs += [graph.behaviour(p) for p in paths + walks]
         v.coverage["replay_graphs"][name] = {"mode": mode, "distinct": g.distinct, "edges": len(graph.edges), "cover_paths": len(paths),
                                              "uncovered_edges": left, "random_walks": len(walks)}
     gpool.shutdown()
-    vlib.log("[c15] %d behaviours to replay (%.0fs)" % (len(behs), time.time() - t0))
-    outs = common.run_parallel(binary, "TestReplay", [{"behaviours": c, "seed": seed + i, "tier": tier}
-                                                      for i, c in enumerate(common.chunks(behs, min(16, maxw)))], 3600)
+    vlib.log("[c15] %d behaviours to replay (%.0fs)" % (len(behs) + len(behs_every), time.time() - t0))
+    nchunk = max(1, min(16, maxw) // 2)
+    inputs = [{"behaviours": c, "seed": seed + i, "tier": tier} for i, c in enumerate(common.chunks(behs, nchunk))]
+    nplain = len(inputs)
+    inputs += [{"behaviours": c, "seed": seed + 100 + i, "tier": tier} for i, c in enumerate(common.chunks(behs_every, nchunk))]
+    outs = common.run_parallel(binary, "TestReplay", inputs, 3600)
     nrep = steps = ndrift = 0
     distinct = 0
-    for res, out, rc in outs:
+    nskip = 0
+    for oi, (res, out, rc) in enumerate(outs):
         res = crash_or_absorb(v, res, out, rc, "graph replay")
         nrep += res["behaviours"]
         steps += res["steps"]
         ndrift += res.get("counters", {}).get("behaviours_with_drift", 0)
         distinct = max(distinct, res.get("distinct", 0))
         for t in res.get("traces") or []:
-            traces += split_traces(t)
+            for j, tr in enumerate(split_traces(t)):
+                # A behaviour of a COVER_ALL graph that stayed on the model's path was compared with the model at every
+                # quiescent point (results and parked calls): its history is a history of the model by construction.
+                # TLC re-validates those that left the path, and a seeded sample of the others.
+                if oi >= nplain and '"drift":true' not in tr[0] and (j + oi + seed) % EVERY_SAMPLE:
+                    nskip += 1
+                    continue
+                traces.append(tr)
+    v.coverage["replayed_on_path_not_revalidated"] = nskip
     v.coverage["behaviours_replayed"] = nrep
     v.coverage["replayed_steps"] = steps
     v.coverage["replay_behaviours_with_drift"] = ndrift
